@@ -120,6 +120,22 @@ HISTORY = {
     'C19r3-B': ('caught', 'R-success-guard existed'),
     'C20r3-A': ('caught', 'R-response-time-writes / R-owners-liveness existed'),
     'C20r3-B': ('caught', 'R-match-writes (reset on election) existed'),
+    'C01r4-A': ('missed', 'R-commit-rule tightened: the term tested is that of the entry at the candidate index, not of the last log entry'),
+    'C01r4-B': ('caught', 'R-match-writes existed'),
+    'C02r4-A': ('caught', 'R-success-guard existed'),
+    'C02r4-B': ('caught', 'R-majority (counted population) existed'),
+    'C03r4-A': ('caught', 'R-vote-grant existed'),
+    'C03r4-B': ('caught', 'R-commit-rule existed'),
+    'C04r4-A': ('missed', 'same clause as C01r4-A'),
+    'C04r4-B': ('caught', 'R-commit-persisted-value existed'),
+    'C05r4-A': ('caught', 'R-majority existed'),
+    'C05r4-B': ('caught', 'R-commit-rule existed'),
+    'C06r4-A': ('caught', 'R-write-then-publish existed'),
+    'C06r4-B': ('caught', 'R-dump-atomic (first chunk restarts) existed'),
+    'C09r4-A': ('caught', 'R-owners-membership / R-rollback-paired (restore installs the set) existed'),
+    'C09r4-B': ('missed', 'R-dump-atomic extended: the rename is not inside the with-block that writes the temporary file'),
+    'C10r4-A': ('caught', 'R-rollback-paired (rolled-back entries) existed'),
+    'C10r4-B': ('missed', 'R-apply-on-append extended: the dispatcher re-applies every membership command it executes'),
 }
 
 
